@@ -220,6 +220,7 @@ def run_scenario(sc):
         obs['harness_leaked_real_threads'] = leaked
         _install.uninstall()
     obs.pop('_open_gens', None)
+    obs.pop('_pending_apply', None)
     import json as _json
     return _json.loads(_json.dumps(obs, default=lambda x: repr(x)[:120]))
 
@@ -654,6 +655,10 @@ def _run(sc, S, obs):
                     _do_map(pool, op, opi, o, mk_funcs, S, obs)
                 elif kind == 'apply_batch':
                     _do_apply(pool, op, opi, o, mk_funcs, S, obs)
+                elif kind == 'apply_collect':
+                    op0, o0, results0 = obs.get('_pending_apply', {}).pop(op['of'])
+                    _collect_apply(pool, op0, o0, results0)
+                    o['outcome'] = 'ok'
                 elif kind == 'set':
                     what, val = op['what'], op['value']
                     if what == 'shared_objects':
@@ -875,6 +880,17 @@ def _do_apply(pool, op, opi, o, mk_funcs, S, obs):
         results.append((i, r))
         if t.get('gap'):
             sim.time_shim.sleep(t['gap'])
+    if op.get('defer_wait'):
+        # the results are collected by a later 'apply_collect' operation: other calls run while these tasks are in flight
+        obs.setdefault('_pending_apply', {})[opi] = (op, o, results)
+        o['outcome'] = 'ok'
+        o['apply'] = []
+        o['apply_exc'] = {}
+        return
+    _collect_apply(pool, op, o, results)
+
+
+def _collect_apply(pool, op, o, results):
     outs = o['apply'] = []
     excs = o['apply_exc'] = {}
     order = op.get('wait_order') or list(range(len(results)))
